@@ -484,3 +484,124 @@ func ruleC17R5(c *Ctx) {
 	}
 	c.floor("C17.R5", "slot writes", n, 4)
 }
+
+// R7 (added after seed c17f): client numbers are unique among all open connections of the process. The reloadable
+// orchestrator keeps ONE slot table indexed by client number for every input; a number that is unique only within one
+// listener (a per-listener counter or free list) lets connections of two inputs share a slot: the later registration
+// orphans the earlier sink, a reload re-creates one sink for both, the first close nils the slot under the other. The
+// number given to MultiSinkMessageReceiver.NewSink must therefore be the connection's socket descriptor (unique among
+// open sockets of the process, util.GetFDFromTCPConnOrPanic) passed along unchanged.
+func init() {
+	register("C17", "C17.R7", ruleC17R7)
+}
+
+func ruleC17R7(c *Ctx) {
+	c.P.onlyCalledFrom(c.P.universe[0], nil) // builds the static call index
+	n := 0
+	for _, fn := range c.P.universe {
+		for _, s := range sitesWhere(fn, func(s ssa.CallInstruction) bool {
+			return invokeOf(s, "base.MultiSinkMessageReceiver", "NewSink")
+		}) {
+			n++
+			args := s.Common().Args
+			num := args[len(args)-1]
+			seen := map[ssa.Value]bool{}
+			bad := ""
+			var walk func(v ssa.Value, d int)
+			walk = func(v ssa.Value, d int) {
+				v = strip(v)
+				if v == nil || seen[v] || bad != "" {
+					return
+				}
+				if d > 10 {
+					bad = "a value this analysis cannot trace"
+					return
+				}
+				seen[v] = true
+				switch x := v.(type) {
+				case *ssa.Convert:
+					walk(x.X, d+1)
+				case *ssa.Phi:
+					for _, e := range x.Edges {
+						walk(e, d+1)
+					}
+				case *ssa.Parameter:
+					f := x.Parent()
+					idx := -1
+					for i, q := range f.Params {
+						if q == x {
+							idx = i
+						}
+					}
+					sites := c.P.staticSites[f]
+					if len(sites) == 0 || c.P.valueUse[f] {
+						bad = "the parameter " + x.Name() + " of " + anchorName(f) + ", whose callers are not all known"
+						return
+					}
+					for _, site := range sites {
+						if strings.Contains(site.Parent().Synthetic, "wrapper") {
+							continue
+						}
+						if idx < len(site.Common().Args) {
+							walk(site.Common().Args[idx], d+1)
+						}
+					}
+				case *ssa.FreeVar:
+					for _, mc := range closureBindings(x) {
+						walk(mc, d+1)
+					}
+				case *ssa.Extract:
+					walk(x.Tuple, d+1)
+				case *ssa.Call:
+					if f := x.Common().StaticCallee(); f != nil && isAnchor(f, "util.GetFDFromTCPConnOrPanic") {
+						return
+					}
+					if f := x.Common().StaticCallee(); f != nil {
+						if x.Common().Signature().Recv() != nil {
+							bad = "the result of " + anchorOrExt(f) + " on " + canonOf(x.Common().Args[0]) + " — an allocator that belongs to one object hands out numbers that are unique within that object only"
+							return
+						}
+						bad = "the result of " + anchorOrExt(f)
+						return
+					}
+					bad = "the result of a dynamic call"
+				default:
+					bad = canonOf(v)
+				}
+			}
+			walk(num, 0)
+			c.check(bad == "", "C17.R7", fn, "client numbers are unique among the open connections of the process", s.Pos(),
+				"the number given to NewSink is the connection's socket descriptor (GetFDFromTCPConnOrPanic), passed along unchanged",
+				"the client number given to NewSink is "+bad+", not the connection's socket descriptor: with two inputs, connections open at the same time can share a slot of the reloadable orchestrator's sink table (orphaned sink, records delivered to the other connection's sink, slot nil-ed under an open connection)")
+		}
+	}
+	c.floor("C17.R7", "MultiSinkMessageReceiver.NewSink call sites", n, 1)
+}
+
+func anchorOrExt(f *ssa.Function) string {
+	if strings.HasPrefix(fnPkgPath(f), modPath) {
+		return anchorName(f)
+	}
+	return extName(f)
+}
+
+// closureBindings: the values bound to free variable fv where its function is made into a closure
+func closureBindings(fv *ssa.FreeVar) []ssa.Value {
+	fn := fv.Parent()
+	idx := -1
+	for i, q := range fn.FreeVars {
+		if q == fv {
+			idx = i
+		}
+	}
+	var out []ssa.Value
+	if fn.Parent() == nil || idx < 0 {
+		return out
+	}
+	eachInstr(fn.Parent(), func(in ssa.Instruction) {
+		if mc, ok := in.(*ssa.MakeClosure); ok && mc.Fn == fn && idx < len(mc.Bindings) {
+			out = append(out, mc.Bindings[idx])
+		}
+	})
+	return out
+}
